@@ -72,8 +72,12 @@ def cases(tier):
     for dim in (2, 3):
         for payload in ("scalar", "vector"):
             for n in (2, 3, 4, 5):
-                for tk in ("dated", "times", "notime"):
-                    for how in ("append0", "append2.5", "stack"):
+                # "dated-ref": a shared explicit reference date that is NOT the first image's date;
+                # "append-chunks": the images after the first are appended as series of two slices
+                for tk in ("dated", "dated-ref", "times", "notime"):
+                    for how in ("append0", "append2.5", "stack", "append-chunks"):
+                        if how == "append-chunks" and n < 3:
+                            continue
                         out.append({"kind": "assemble", "dim": dim, "payload": payload, "n": n, "time": tk, "how": how})
     out.sort(key=lambda c: (c["kind"] != "assemble", c["dim"], c.get("n", 0)))
     return out
@@ -228,6 +232,11 @@ def run_bfs(case, r):
             yield "subregion", f"coordinate-corners+{off}", (lambda P=P: img.subregion(darsia.make_coordinate(np.asarray(P))))
             # physical box == voxel box of its converted corners
             yield "subregion", f"coordinate-vs-converted-voxels+{off}", (lambda P=P: img.subregion(darsia.make_voxel(np.asarray(cs.voxel(darsia.make_coordinate(np.asarray(P)))))))
+        # the box marked by ALL its corners (more than two points, in product order and reversed)
+        allc = np.array(list(itertools.product(*[(lo[k] + 0.25, hi[k] + 0.25) for k in range(len(lo))])))
+        Pall = cs.coordinate(allc)
+        yield "subregion", "coordinate-all-corners", (lambda Pall=Pall: img.subregion(darsia.make_coordinate(np.asarray(Pall))))
+        yield "subregion", "coordinate-all-corners-cyclic", (lambda Pall=Pall: img.subregion(darsia.make_coordinate(np.roll(np.asarray(Pall), 1, axis=0))))
         if touch_lo.any() or touch_hi.any():
             lo3 = np.where(touch_lo, lo - 1.75, lo + 0.5)
             hi3 = np.where(touch_hi, hi + 1.25, hi + 0.5)
@@ -314,14 +323,23 @@ def run_assemble(case, r):
         if tk == "dated":
             kw["date"] = D0 + k * DSTEP
             kw["reference_date"] = D0
+        elif tk == "dated-ref":
+            kw["date"] = D0 + k * DSTEP
+            kw["reference_date"] = D0 - datetime.timedelta(hours=1)
         elif tk == "times":
             kw["time"] = 10.0 * k
         data = (1000 * k + np.arange(int(np.prod(full)), dtype=float)).reshape(full)
         singles.append(darsia.Image(data, **kw))
     originals = [s.copy() for s in singles]
-    offset = {"append0": 0, "append2.5": 2.5, "stack": None}[how]
+    offset = {"append0": 0, "append2.5": 2.5, "stack": None, "append-chunks": 0}[how]
     if how == "stack":
         series = darsia.stack([s.copy() for s in singles])
+    elif how == "append-chunks":
+        series = singles[0].copy()
+        rest = singles[1:]
+        for i in range(0, len(rest), 2):
+            chunk = rest[i : i + 2]
+            series.append(chunk[0].copy() if len(chunk) == 1 else darsia.stack([c.copy() for c in chunk]), offset=0)
     else:
         series = singles[0].copy()
         for s in singles[1:]:
@@ -337,7 +355,7 @@ def run_assemble(case, r):
         # date, or the explicit time), shifted by the offset handed to append()
         if tk == "notime":
             return None
-        t = 90000.25 * k if tk == "dated" else 10.0 * k
+        t = 90000.25 * k if tk == "dated" else (3600.0 + 90000.25 * k if tk == "dated-ref" else 10.0 * k)
         return t + (offset if (offset and k > 0) else 0)
 
     for k in range(n):
@@ -345,6 +363,8 @@ def run_assemble(case, r):
         o = originals[k]
         r.check(np.array_equal(sl.img, o.img), cellb + "/data", "time_slice(k) of the assembled series returns the data of original k", k=k)
         r.check(sl.date == o.date, cellb + "/date", "... with the date of original k", k=k, got=str(sl.date), want=str(o.date))
+        if tk in ("dated", "dated-ref"):
+            r.check(sl.reference_date == o.reference_date, cellb + "/time", "... with the shared reference date of the originals", k=k, got=str(sl.reference_date), want=str(o.reference_date))
         r.check(sl.time == want_time(k), cellb + "/time", "... with the relative time of original k (+ offset given to append)", k=k, got=sl.time, want=want_time(k))
         r.check(np.array_equal(np.asarray(sl.origin), np.asarray(o.origin)) and [float(x) for x in sl.dimensions] == [float(x) for x in o.dimensions] and sl.scalar == o.scalar and not sl.series, cellb + "/placement", "... and its placement and payload layout")
     for a, b in subranges(n):
